@@ -26,6 +26,10 @@ CHECKS = {
          "TLC maps every 2D probe exactly onto the section (rational arithmetic on Pythagorean directions), checks that the probes stay away from straight feature boundaries, and every section x position x depth x property list is replayed: the 2D reply must equal the 3D reply at the mapped point block by block, velocities as the specified projection, and a world without cross section must refuse.",
          "36 sections (origins x 6 directions x Cartesian/spherical), 45 property lists; tolerance 1e-9 because the code's own mapping rounds; " + NOTE,
          "TLA+/TLC (CrossSection.tla) + replay comparing 2D and 3D replies"),
+ "C14": ("model_checking",
+         "TLC explores every interleaving of the transcribed parallel_for (no result slot written twice, at most T workers, termination under fairness, launches equal their sequential meaning), proves the slice partition for all n, T in the bound, and checks concurrent readers; executions of the REAL ThreadPool are recorded and validated by TLC as behaviours of the specification (trace validation, Prop level: any partition is accepted); real threads replay query streams against one world bitwise vs single-thread and under ThreadSanitizer; real gwb-grid outputs are byte-compared for -j 1..40.",
+         "interleavings exhaustively only in the model (n <= 6/7, T <= 3/4); real schedules sampled; worlds without random models; " + NOTE,
+         "TLA+/TLC (Pool.tla, Concurrent.tla) + trace validation of the real ThreadPool (PoolTrace.tla) + TSan + byte comparison"),
  "C16": ("model_checking",
          "The refinement mapping from C / wrapper actions to World actions is stated in CApi.tla and checked by TLC on all argument combinations; every mapped pair of actions is executed side by side in one process and compared bitwise, with the seed observed through random models and the output directory through the files written.",
          "5 seeds incl. 2^31-1 and 2^32+5, null/non-null flag and directory; " + NOTE,
